@@ -21,7 +21,7 @@ with the patch (all three facts re-confirmed here by `tools/confirm_seeded.sh`).
 the patch to /repo, runs `./check Cxx --tier quick`, and undoes it. "MISSED ... caught since" entries record
 where a first version of a check was strengthened because of the seeded change.
 
-%d changes in eight rounds (rounds four to eight for ten properties each) (later rounds = the higher numbers of each property; each round was produced by fresh
+%d changes in nine rounds (rounds four to nine for ten properties each) (later rounds = the higher numbers of each property; each round was produced by fresh
 sub-agents after the checks had been strengthened for the round before); %d were missed by the check as it was
 when the change arrived, every one of those led to a stronger generator or oracle (and six of them to the discovery
 of genuine defects of the unchanged tree, e.g. the MTZ reader overflows, the neighbour-search face defect and the
